@@ -2,6 +2,7 @@ import Rangers.Model.RLP
 import Rangers.Model.RLPTyped
 import Rangers.Proofs.RLPKindRefine
 import Rangers.Proofs.RLPTypedFuel
+import Rangers.Proofs.RLPStreamRefine
 /-!
 # C08 — the decoders agree with each other
 
@@ -75,5 +76,40 @@ theorem any_accepts_canonical (b : Bytes) (v : Val) (h : decodeTy .any b = .ok v
       rw [hr, List.append_nil] at he2
       rw [he2]; exact he1
     · cases h
+
+/-! ## The `Stream` state machine refines the slice parser, at any nesting depth
+
+State: a `DecodeBytes`-style stream (`limited`, `remaining = len(inp)`) positioned at an element
+boundary (`kind = none`) with any stack of open lists; the *visible window* is what the innermost
+list (or the input limit) still allows: `inp.take (avail stack len)`. -/
+
+/-- `Kind()` returns exactly the header the slice parser `readHead` finds in the visible window (kind,
+    size; 0 for a single byte), consumes exactly the header bytes from reader, list position and
+    input budget, and caches it without error. -/
+theorem stream_kind_refines_readHead (s : Stream) (x : UInt8) (tl : Bytes) (st : List (Nat × Nat))
+    (k : Kind) (ts cs : Nat) (hc : Core s (x :: tl) st) (hk : s.kind = none)
+    (ha1 : 1 ≤ avail st (x :: tl).length) (hav : avail st (x :: tl).length ≤ (x :: tl).length)
+    (hh : readHead ((x :: tl).take (avail st (x :: tl).length)) = .ok (k, ts, cs)) :
+    (sKind s).1 = .ok (k, kSize k cs) ∧
+    Core (sKind s).2 ((x :: tl).drop (hdrLen k ts)) (bump st (hdrLen k ts)) ∧
+    (sKind s).2.kind = some k ∧ (sKind s).2.kinderr = none :=
+  let ⟨h1, h2, h3, _, h5, _⟩ := sKind_ok hc hk ha1 hav hh
+  ⟨h1, h2, h3, h5⟩
+
+/-- `Bytes()` returns exactly the content the slice parser delimits and leaves the stream at the next
+    element boundary (reader, list position and budget advanced by header + content, `Kind` re-armed). -/
+theorem stream_bytes_refines (s : Stream) (x : UInt8) (tl : Bytes) (st : List (Nat × Nat))
+    (k : Kind) (ts cs : Nat) (hc : Core s (x :: tl) st) (hk : s.kind = none)
+    (ha1 : 1 ≤ avail st (x :: tl).length) (hav : avail st (x :: tl).length ≤ (x :: tl).length)
+    (hh : readHead ((x :: tl).take (avail st (x :: tl).length)) = .ok (k, ts, cs)) (hnl : k ≠ .list)
+    (hcanon : ¬ (k = .string ∧ cs = 1 ∧ headLt128 (((x :: tl).take (avail st (x :: tl).length)).drop ts) = true)) :
+    (sBytes s).1 = .ok ((((x :: tl).take (avail st (x :: tl).length)).drop ts).take cs) ∧
+    Core (sBytes s).2 ((x :: tl).drop (ts + cs)) (bump st (ts + cs)) ∧ (sBytes s).2.kind = none :=
+  sBytes_ok hc hk ha1 hav hh hnl hcanon
+
+-- non-vacuity: inside an open list with one byte already consumed
+example : Core (runOps [.list, .bytes] (newStream [0xc4, 0x01, 0x82, 0xaa, 0xbb] 0)) [0x82, 0xaa, 0xbb] [(1, 4)] :=
+  ⟨rfl, rfl, rfl, rfl⟩
+example : (sBytes (runOps [.list, .bytes] (newStream [0xc4, 0x01, 0x82, 0xaa, 0xbb] 0))).1 = .ok [0xaa, 0xbb] := by rfl
 
 end Rangers.Props.C08
